@@ -76,6 +76,7 @@ fn main() {
         run_mapvec(&mut ctx);
         run_misc(&mut ctx);
         run_flatn(&mut ctx);
+        run_splice_back(&mut ctx);
         ctx.summary();
         print!("{}", ctx.out);
         return;
